@@ -16,7 +16,8 @@ import (
 )
 
 type Dec struct {
-	V int // chosen alternative
+	V   int    // chosen alternative
+	Aux uint64 // value proposed by the solver (concretisation decisions)
 }
 
 type Config struct {
@@ -155,14 +156,16 @@ func (p *Path) decide(n int, what string) int {
 	}
 	base := append([]Dec(nil), p.decs...)
 	for k := n - 1; k >= 1; k-- {
-		p.alts = append(p.alts, append(append([]Dec(nil), base...), Dec{k}))
+		p.alts = append(p.alts, append(append([]Dec(nil), base...), Dec{V: k}))
 	}
-	p.decs = append(p.decs, Dec{0})
+	p.decs = append(p.decs, Dec{V: 0})
 	return 0
 }
 
 // Branch decides a symbolic condition, forking if both sides are feasible.
-func (p *Path) Branch(c *Term) bool {
+func (p *Path) Branch(c *Term) bool { return p.branchAux(c, 0) }
+
+func (p *Path) branchAux(c *Term, aux uint64) bool {
 	if c.isConst {
 		return c.u == 1
 	}
@@ -190,13 +193,13 @@ func (p *Path) Branch(c *Term) bool {
 	}
 	if rt != "unsat" {
 		if rf != "unsat" {
-			p.alts = append(p.alts, append(append([]Dec(nil), p.decs...), Dec{0}))
+			p.alts = append(p.alts, append(append([]Dec(nil), p.decs...), Dec{0, aux}))
 		}
-		p.decs = append(p.decs, Dec{1})
+		p.decs = append(p.decs, Dec{1, aux})
 		p.addPC(c)
 		return true
 	}
-	p.decs = append(p.decs, Dec{0})
+	p.decs = append(p.decs, Dec{0, aux})
 	p.addPC(ts.Not(c))
 	return false
 }
@@ -234,7 +237,7 @@ func (p *Path) assume(c *Term) {
 	if p.e.solver.CheckWith(c) == "unsat" {
 		panic(pathEnd{"infeasible", "assumption unsatisfiable"})
 	}
-	p.decs = append(p.decs, Dec{1})
+	p.decs = append(p.decs, Dec{V: 1})
 	p.addPC(c)
 }
 
